@@ -341,7 +341,9 @@ func addNestedDefs(r *rand.Rand, p *Program) {
 	names := []string{"alpha", "beta", "gamma", "delta-1", "eps_2", "z"}
 	r.Shuffle(len(names), func(i, j int) { names[i], names[j] = names[j], names[i] })
 	for d := 0; d < k; d++ {
-		val := pick(r, []string{"[a-z]+", "x{2,3}", "(?:a|b)", "\\s*", "y", "{3}", "a{{", "}}b"})
+		val := pick(r, []string{"[a-z]+", "x{2,3}", "(?:a|b)", "\\s*", "y", "{3}", "a{{", "}}b",
+			// text that means something to a replacement template, a printf or a shell, and nothing to a definition
+			"[$_a-z]", "p$1q", "k${v1}z", "[$$]", "^end$", "\\$[a-z]+", "100%d", "%s", "a\\1b", "$0"})
 		if d > 0 && chance(r, 0.6) {
 			val = pick(r, []string{"", "p", "(?:"}) + "{{" + names[r.Intn(d)] + "}}" + pick(r, []string{"", "q", ")?"})
 			if strings.HasPrefix(val, "(?:") && !strings.HasSuffix(val, ")?") {
@@ -454,6 +456,16 @@ func genParserCases(focus string) func(r *rand.Rand, tier string, env *Env) []Ca
 				files = append(files, []byte("i"), []byte(k+".ra"), []byte(inc[k]))
 			}
 			files = append(files, []byte("e"), []byte("none.ra"), []byte("zzz\n"))
+			{
+				// one name in both directories: the include directory is looked at first — for an include, for the
+				// file of an include-except and for its exclusion files alike
+				both := append(append([][]byte{}, files...), []byte("i"), []byte("twice.ra"), []byte("alpha\nbeta\n"), []byte("e"), []byte("twice.ra"), []byte("gamma\ndelta\n"),
+					[]byte("i"), []byte("greek.ra"), []byte("alpha\nbeta\ngamma\ndelta\n"))
+				for _, prog := range []string{"##!> include twice\nx\n", "##!> include twice.ra\n", "##!> include-except greek twice\n", "##!> include-except twice none\n##!> assemble\n##!> include twice\n##!<\n"} {
+					args := append(append(append([][]byte{}, empty...), []byte(prog)), both...)
+					cases = append(cases, Case{Kind: "name-in-both-directories", Ops: []Op{{"parse.run", args[6:]}, {"gen.run", args}}, Oracles: []Op{{"parser.inline", args}}})
+				}
+			}
 			{
 				// word lists of several buffer-fulls (20 KiB … 30 KiB): every reader on the way sees more than one chunk
 				var big, skip strings.Builder
